@@ -348,6 +348,18 @@ pub fn main(args: &[String]) {
                 }
             }
         }
+        // the numeric tower (integer / decimal / float / double): every comparison on every pair of the universe of SparqlNum.tla
+        if let Some(path) = arg(args, "--num-universe") {
+            let nums: Vec<Value> = serde_json::from_str(&std::fs::read_to_string(path).expect("num universe")).expect("num universe json");
+            let nums: Vec<Value> = nums.iter().map(|v| term_json(&lit_dt(v["lex"].as_str().unwrap(), v["dt"].as_str().unwrap()))).collect();
+            for a in &nums {
+                for b in &nums {
+                    for op in ["eq", "ne", "lt", "gt", "le", "ge"] {
+                        apps.push(json!({"op":op,"a":c(a),"b":c(b)}));
+                    }
+                }
+            }
+        }
         for (i, e) in apps.into_iter().enumerate() {
             if (i + seed as usize) % stride != 0 {
                 continue;
